@@ -67,7 +67,7 @@ def run(model, rep):
     rep.floor('C13.VAL', 7)
 
     modes = E.run_modes(model, rep.tier)
-    E.report(rep, 'C13.OUT', where, modes, ('payload', 'listing', 'channel', 'destination'), 'output', 'destinations receive the encoded answer or the untouched source, binary, no listing on the payload channel', None)
+    E.report(rep, 'C13.OUT', where, modes, ('payload', 'size', 'listing', 'channel', 'destination'), 'output', 'destinations receive the encoded answer or the untouched source, binary, no listing on the payload channel', None)
     rep.floor('C13.OUT', 9)
 
     # ---- DOC
